@@ -46,7 +46,6 @@ fn main() {
                 "C17" => c17::run(seed, n, out),
                 "C02quadric" | "C03quadric" | "C13quadric" => quadric::run(prop, seed, n, out),
                 "C05" => loops::run_c05(seed, n, out),
-                "C05p" => loops::run_c05_as(seed, n, out, "C05p"),
                 "C10" => loops::run_c10(seed, n, out),
                 "C01mesh" | "C09mesh" | "C08hist" | "C08rand" | "C01refine" | "C09refine" | "C18refine" => mesh::run(prop, seed, n, out, &args[6..]),
                 _ => { eprintln!("unknown property {}", prop); std::process::exit(2) }
@@ -69,7 +68,7 @@ fn main() {
             "C12" => polys::replay_c12(&args[3..]),
             "C20" => polys::replay_c20(&args[3..]),
             "C17" => c17::replay(&args[3..]),
-            "C05" | "C05p" => loops::replay_c05(&args[3..]),
+            "C05" => loops::replay_c05(&args[3..]),
             "C10" => loops::replay_c10(&args[3..]),
             "C01" | "C08" | "C09" | "C18" => mesh::replay(&args[3..]),
             _ => { eprintln!("unknown property"); std::process::exit(2) }
